@@ -101,9 +101,10 @@ impl<'a> World<'a> {
         let base = self.next_ref_step();
         self.ref_step += files.len() as u64 + 2;
         self.count("reference_builds");
+        let ref_default = !self.scn.ctor_default;
         self.refc.exec(0, move || {
             policy.install(base);
-            let mut p = P::new();
+            let mut p = if ref_default { P::default() } else { P::new() };
             for (i, (id, text)) in files.into_iter().enumerate() {
                 policy.install(base + 1 + i as u64);
                 if let Some(m) = exec::add_content(&mut p, id.clone(), &text) {
@@ -316,9 +317,15 @@ fn run_inner(w: &mut World, s: &HistScenario) -> RunOut {
     let mut states: Vec<u64> = Vec::new();
     let mut transitions: Vec<u64> = Vec::new();
     let mut step_no = 0u64;
+    let ctor_default = s.ctor_default;
     let mut parser: P = callers.exec(s.steps.first().map(|st| st.caller).unwrap_or(0), move || {
         policy.install(0);
-        P::new()
+        // the long-lived parser and the references come from different constructors
+        if ctor_default {
+            P::default()
+        } else {
+            P::new()
+        }
     });
     let mut prev_c13: Option<C13State> = None;
     // bookkeeping for probes / non-triviality
@@ -1155,10 +1162,7 @@ fn check_c13(
     // clause "stub": the result equals the one obtained with the rest of the project replaced
     // by empty items of the registered kinds
     for (k, (text, f)) in &facts {
-        let iso = &isos[k];
-        if !iso.has_tree {
-            continue;
-        }
+        // Note: files without a tree are checked too (their stub project is the file alone)
         let cache_key = (text.clone(), f.clone() + &format!("{:?}", others[k]));
         let expected = match w.stub_cache.get(&cache_key) {
             Some(e) => e.clone(),
